@@ -19,6 +19,11 @@ def _copy_repo(repo, dst):
     def ig(d, names):
         return [n for n in names if n in ("target", ".git")]
     shutil.copytree(repo, dst, ignore=ig, symlinks=True)
+    # shared target directory + mtime-based freshness: always rebuild the crate from the text that is there now
+    try:
+        os.utime(os.path.join(dst, "src", "lib.rs"), None)
+    except OSError:
+        pass
 
 
 def run(repo, verif, prop, kcfg, tier, outdir):
